@@ -191,13 +191,24 @@ def main(tier, seed, replay=None):
                 return
         raw.append({"what": "an undocumented exception escaped validate(): %s: %s" % (ch[4:], str(e)[:200]), "case": name, "shapes_graph": shapes_ttl, "data": "harness/c16_cases.py DATA" if not name.startswith("damaged") else data_text, "options": opts})
 
+    # the same shapes with the data handed over as Turtle text (validated as a Dataset): messages and report building take
+    # other code paths there
+    api_cases = api_cases + [("data as text:" + name, ttl, dict(opts, _data_as_text=True)) for k_, (name, ttl, opts) in enumerate(list(api_cases))
+                             if not name.startswith(("meta:", "adv+iterate:")) and (k_ % 3 == 0 or "targetNode" in ttl.split("sh:targetClass ex:P ;")[-1])]
     for name, ttl, opts in api_cases:
+        as_text = opts.pop("_data_as_text", False) if "_data_as_text" in opts else False
         try:
             sg = rdflib.Graph().parse(data=ttl, format="turtle")
             dg = rdflib.Graph().parse(data=data_ttl, format="turtle")
         except Exception:
             continue
-        ch, e = classify(lambda: pyshacl.validate(dg, shacl_graph=sg, **opts))
+        if as_text:
+            ch, e = classify(lambda: pyshacl.validate(data_ttl, shacl_graph=sg, data_graph_format="turtle", **opts))
+            ch_g, _ = classify(lambda: pyshacl.validate(dg, shacl_graph=sg, **opts))
+            if ch.split(":")[0] != ch_g.split(":")[0] or (ch.startswith(("doc", "raw")) and ch != ch_g):
+                raw.append({"what": "the outcome channel depends on how the data graph is handed over: %s as Turtle text, %s as a Graph object" % (ch, ch_g), "case": name, "shapes_graph": ttl, "options": opts})
+        else:
+            ch, e = classify(lambda: pyshacl.validate(dg, shacl_graph=sg, **opts))
         channels[ch.split(":")[0] + (":" + ch.split(":")[1] if ch.startswith(("doc", "raw")) else "")] = channels.get(ch.split(":")[0] + (":" + ch.split(":")[1] if ch.startswith(("doc", "raw")) else ""), 0) + 1
         if ch.startswith("raw"):
             note_raw(name, ch, e, ttl, opts)
